@@ -664,3 +664,22 @@ Proof.
       constructor; [exact Fx | apply IH; exact H].
     + intro H. inversion H; subst. rewrite H2. simpl. apply IH. exact H3.
 Qed.
+
+(* a successfully constructed instance passed the validator of every field, on
+   the value the field holds *)
+Lemma run_validators_all : forall fs obj kv, run_validators fs obj kv = Ok tt ->
+  forall f, In f fs ->
+    f_validator f obj (match lookup (f_name f) kv with Some v => v | None => VNone end) = Ok tt.
+Proof.
+  induction fs as [|g r IH]; intros obj kv H f I; [contradiction|].
+  simpl in H. apply bind_ok in H. destruct H as [[] [Hg Hr]].
+  destruct I as [I|I]; [subst; exact Hg | apply IH; assumption].
+Qed.
+
+Theorem mk_validates : forall c kw r k f v,
+  mk c kw = Ok r -> find_field c k = Some f -> lookup k kw = Some v -> f_validator f r v = Ok tt.
+Proof.
+  intros c kw r k f v M F L. apply mk_ok_shape in M. destruct M as [R [_ [_ [V _]]]]. subst r.
+  destruct (find_field_name c k f F) as [N I]. pose proof (run_validators_all _ _ _ V f I) as H.
+  rewrite N, lookup_fill, F, L in H. exact H.
+Qed.
